@@ -13,6 +13,7 @@ import (
 	"os"
 	"os/exec"
 	"path/filepath"
+	"runtime"
 	"strconv"
 	"strings"
 	"sync"
@@ -134,7 +135,10 @@ func (cl *Cluster) newRep(i, a, b int) *RepProc {
 	ip := fmt.Sprintf("127.%d.%d.%d", a, b, i+2)
 	p := &RepProc{Idx: i, IP: ip, Addr: "tcp://" + ip + ":9502", Dir: filepath.Join(cl.Base, fmt.Sprintf("%s-r%d", cl.Name, i)),
 		Log: filepath.Join(cl.Base, fmt.Sprintf("%s-r%d.log", cl.Name, i))}
-	p.PortBase = 12000 + ((os.Getpid()*37+a*101+b*13+i*7)%1900)*20
+	// below the kernel's ephemeral range (32768-60999): a receiver cannot bind a port that an outgoing connection of any
+	// process on the machine happens to use as its local port, and the transfer then fails after the sender's 7 s of
+	// retries (seen as rebuilds that needed many attempts when several clusters ran side by side)
+	p.PortBase = 12000 + ((os.Getpid()*37+a*101+b*13+i*7)%1000)*20
 	return p
 }
 
@@ -236,15 +240,46 @@ func (cl *Cluster) Modes() map[string]types.Mode {
 		defer cl.lmu.Unlock()
 		return cl.lastModes
 	}
-	got := false
-	for i := 0; i < 9000 && !got; i++ {
-		if got = cl.C.TryLock(); !got {
-			time.Sleep(5 * time.Millisecond)
+	got := cl.C.TryLock()
+	if !got {
+		// queue for the lock the way every management request does (a pending Lock makes new readers wait, so the
+		// writers' read locks cannot starve it - polling TryLock under three busy writers can fail for as long as
+		// they run, which is what a loaded machine once turned into a false "wedged")
+		var mu sync.Mutex
+		state := 0 // 0 waiting, 1 acquired and handed over, 2 abandoned
+		done := make(chan struct{})
+		go func() {
+			cl.C.Lock()
+			mu.Lock()
+			if state == 2 {
+				cl.C.Unlock()
+			} else {
+				state = 1
+			}
+			mu.Unlock()
+			close(done)
+		}()
+		select {
+		case <-done:
+			got = true
+		case <-time.After(45 * time.Second):
+			mu.Lock()
+			if state == 1 {
+				got = true
+			} else {
+				state = 2
+			}
+			mu.Unlock()
 		}
 	}
 	if !got {
 		atomic.StoreInt32(&cl.Wedged, 1)
-		cl.event("the controller's lock has been held for 45 s: wedged")
+		cl.event("a request for the controller's lock has waited 45 s: wedged")
+		if keep := os.Getenv("VERIF_DEV_KEEP"); keep != "" {
+			buf := make([]byte, 1<<22)
+			os.MkdirAll(keep, 0755)
+			os.WriteFile(filepath.Join(keep, "wedged-goroutines.txt"), buf[:runtime.Stack(buf, true)], 0644)
+		}
 		cl.lmu.Lock()
 		defer cl.lmu.Unlock()
 		return cl.lastModes
